@@ -718,6 +718,10 @@ func (e *Engine) contractCall1(fr *frame, x *ssa.Call, fn *ssa.Function, spec *F
 	poolBase := e.nextRgn
 	e.setRgn(poolBase + 8)
 	poolNext := poolBase
+	// the callee's frame must lie inside the caller's (root) frame: what the callee may write, the root may write
+	for _, m := range spec.Modifies {
+		e.calleeFrameOblig(fr, st, env, m, short, x.Pos())
+	}
 	// havoc the modifies set
 	for _, m := range spec.Modifies {
 		e.havocItem(fr, st, env, m)
@@ -743,6 +747,9 @@ func (e *Engine) contractCall1(fr *frame, x *ssa.Call, fn *ssa.Function, spec *F
 		return c.Const(RgnW, uint64(FreshBase+poolNext))
 	}
 	for _, en := range spec.Ensures {
+		if en.Local {
+			continue
+		}
 		t, facts := e.clauseAssume(post, en)
 		st.assume(t)
 		st.facts = append(st.facts, facts...)
@@ -765,6 +772,88 @@ func clauseName(cl *Clause, i int) string {
 		return cl.Label
 	}
 	return fmt.Sprintf("#%d", i+1)
+}
+
+// calleeFrameOblig: one modifies item of a called contract (evaluated in the pre-state of the call) must be
+// covered by the root contract's modifies set, or lie in memory allocated during this call.
+func (e *Engine) calleeFrameOblig(fr *frame, st *State, env *specEnv, m *Clause, callee string, pos token.Pos) {
+	rc := e.cur
+	if rc == nil || rc.spec == nil || fr.dry != nil {
+		return
+	}
+	c := e.C
+	var cond *Term
+	if m.Cond != nil {
+		cond = env.boolTerm(env.eval(m.Cond))
+		if cond.IsFalse() {
+			return
+		}
+	}
+	detail := "call:" + callee + ":" + m.Text
+	rootHeap := false
+	for _, rm := range rc.modRanges {
+		if rm.R == nil {
+			rootHeap = true
+		}
+	}
+	if rootHeap {
+		return
+	}
+	var p Ptr
+	var n *Term
+	switch {
+	case isIdentNamed(m.Expr, "heap"):
+		e.oblige(st, fr, "frame", detail, c.False(), pos)
+		return
+	default:
+		if call, ok := m.Expr.(*ast.CallExpr); ok {
+			if id, ok := call.Fun.(*ast.Ident); ok && (id.Name == "bytes" || id.Name == "elems") && len(call.Args) == 1 {
+				v := env.eval(call.Args[0])
+				sl, ok := v.V.(Slice)
+				if !ok {
+					return
+				}
+				et := v.T.Underlying().(*types.Slice).Elem()
+				p, n = sl.P, c.Mul(sl.Cap, c.Const(64, uint64(sizeof(et))))
+				break
+			}
+			if id, ok := call.Fun.(*ast.Ident); ok && id.Name == "region" {
+				v := env.eval(call.Args[0])
+				p, n = Ptr{regionOf(v.V), c.Const(64, 0)}, c.Const(64, 1<<62)
+				break
+			}
+		}
+		if sl, ok := m.Expr.(*ast.SliceExpr); ok {
+			v := env.eval(sl)
+			s := v.V.(Slice)
+			et := v.T.Underlying().(*types.Slice).Elem()
+			p, n = s.P, c.Mul(s.Len, c.Const(64, uint64(sizeof(et))))
+			break
+		}
+		lp, t := env.lvalue(m.Expr)
+		p, n = lp, c.Const(64, uint64(sizeof(t)))
+	}
+	if isFreshRegion(p.R) {
+		return
+	}
+	alts := []*Term{c.Uge(p.R, c.Const(RgnW, FreshBase)), c.Eq(n, c.Const(64, 0))}
+	if cond != nil {
+		alts = append(alts, c.Not(cond))
+	}
+	for _, rm := range rc.modRanges {
+		off, size := c.Sub(p.O, rm.Lo), c.Sub(rm.Hi, rm.Lo)
+		in := c.And(c.Eq(p.R, rm.R), c.Ule(off, size), c.Ule(n, c.Sub(size, off)))
+		if rm.Cond != nil {
+			in = c.And(rm.Cond, in)
+		}
+		alts = append(alts, in)
+	}
+	e.oblige(st, fr, "frame", detail, c.Or(alts...), pos)
+}
+
+func isIdentNamed(x ast.Expr, name string) bool {
+	id, ok := x.(*ast.Ident)
+	return ok && id.Name == name
 }
 
 // havocItem forgets the contents of one modifies item (evaluated in the pre-state).
